@@ -194,6 +194,9 @@ def _limit_threads() -> None:
     try:
         import torch
         torch.set_num_threads(1)
+        # oneDNN's bfloat16 convolution is not run-to-run deterministic on this CPU (observed: identical model and
+        # input give different outputs); bit-identity oracles need the native kernels
+        torch.backends.mkldnn.enabled = False
     except Exception:
         pass
 
